@@ -73,7 +73,7 @@ def make_overlay(pkg, workdir, native, extra=None):
 def run_symgo(unit, workdir, shard, of, tier):
     pkg = unit["pkg"]
     pairs = make_overlay(pkg, workdir, native=False)
-    out = os.path.join(workdir, "res_%s_%d.json" % (unit["name"], shard))
+    out = os.path.join(workdir, "res_%s_%s_%d.json" % (unit["name"], unit.get("label", ""), shard))
     cmd = [SYMGO, "-dir", REPO, "-pkg", "./" + PKGDIR[pkg], "-out", out, "-shard", str(shard), "-of", str(of)]
     for v, r in pairs:
         cmd += ["-overlay", "%s=%s" % (v, r)]
@@ -182,8 +182,20 @@ def check(pid, tier, spec):
     jobs = []
     for u in units:
         of = u.get(tier + "_shards", u.get("shards", 1))
-        for s in range(of):
-            jobs.append((u, s, of))
+        each = u.get("fix_each")  # {"name": count}: one job per value of a vChoice, for load balance
+        if each:
+            (fname, count), = each.items()
+            for v in range(count):
+                u2 = dict(u)
+                u2["args"] = list(u.get("args", [])) + ["-fix", "%s=%d" % (fname, v)]
+                u2["label"] = "%s=%d" % (fname, v)
+                ofv = u.get("heavy_values", {}).get(v, of)
+                for s in range(ofv):
+                    jobs.append((u2, s, ofv))
+        else:
+            for s in range(of):
+                jobs.append((u, s, of))
+    jobs.sort(key=lambda j: -j[2])
     results = []
     with cf.ThreadPoolExecutor(max_workers=NCPU) as ex:
         futs = [ex.submit(run_symgo, u, workdir, s, of, tier) for (u, s, of) in jobs]
